@@ -50,10 +50,10 @@ FirstBadRun(R) == LET bad == {i \in DOMAIN R.runs : RealWhy(R, R.runs[i]) # "ok"
 
 Judge ==
   LET R == T[tid]
-      specWhy == IF R.refused \/ Run(R.base).st # "stop" THEN "ok"          \* base outside the typed domain of the VM spec: no spec-level verdict
+      specWhy == IF R.refused \/ Run(R.base).st # "stop" \/ R.mode \in {"num_first_keep", "num_append_pop"} THEN "ok"   \* (the numeric-argument variants are judged on the real loads only)          \* base outside the typed domain of the VM spec: no spec-level verdict
                  ELSE IF R.mode \in FnModes THEN FnWhy(R.base, R.new, R.mode) ELSE InjWhy(R.base, R.new, R.mode)
       fb == IF R.refused \/ ~R.base_loads THEN 0 ELSE FirstBadRun(R)
-      drift == IF R.refused \/ R.mode \in FnModes THEN FALSE ELSE R.new # Rewrite(R.base, R.mode)
+      drift == IF R.refused \/ R.mode \in FnModes \cup {"num_first_keep", "num_append_pop"} THEN FALSE ELSE R.new # Rewrite(R.base, R.mode)
   IN
   /\ ~done /\ done' = TRUE /\ UNCHANGED tid
   /\ verdict' = [spec |-> specWhy,
